@@ -402,7 +402,7 @@ func c13R3(c *Ctx, rule string) {
 		// closeStream leaves a tombstone
 		if cs := p.Func("internal/multiplex", "Session.closeStream"); cs != nil {
 			tomb := false
-			allInstrs(cs, func(i ssa.Instruction) {
+			p.unitInstrs(cs, func(i ssa.Instruction) {
 				if mu, ok := i.(*ssa.MapUpdate); ok && isNilConst(mu.Value) {
 					if fv, _ := loadedField(mu.Map); fv == streamsF {
 						tomb = true
